@@ -1,53 +1,209 @@
-"""property id -> units / lemmas / assumptions"""
+"""property id -> units / lemmas / assumptions / level texts (MANIFEST.json is generated from this)"""
 PROPS = {}
 LEMMAS = {}
 NOT_BUILT = {}
 
-SO_MODS = ['contracts.so_tick', 'contracts.so_msg', 'contracts.so_apply', 'contracts.so_submit', 'contracts.so_member', 'contracts.so_send', 'contracts.so_dump']
+SO_MODS = ['contracts.so_tick', 'contracts.so_msg', 'contracts.so_apply', 'contracts.so_submit', 'contracts.so_member',
+           'contracts.so_send', 'contracts.so_dump']
 
-PROPS['C20'] = dict(
-    modules=SO_MODS, units=['tick.leader', 'tick.not-leader', 'hasQuorum'], level='proof',
-    assumptions=['A-CLOCK: successive clock reads are non-decreasing', 'A-REAL: floats treated as reals'],
-    trusted=['T-TRANSPORT'],
-    level_text='Per-function contracts proved for all inputs on the real AST: the leader block of _onTick keeps the leader role only if, at the clock value it reads, more than half of the voters (itself included) answered within leaderFallbackTimeout; otherwise it becomes FOLLOWER with no leader; hasQuorum is exactly the majority-of-connected-voters formula. Unbounded in times, indices and log length; node universe bounded by the property quantifier.',
-    level_note='The bound "fallback timeout + one tick period" is stated, not proved (the tick period is the caller\'s). Floats are reals (A-REAL), the clock is monotone (A-CLOCK). "Never acknowledges SUCCESS while cut off" rests on R9/R10 (C04 units) plus the cross-node argument A-RAFT, which is assumed.',
-)
+A_RAFT = ('A-RAFT: the local rules proved here (R1-R11 of DESIGN §3.3) imply the cluster-wide statement by the published Raft '
+          'argument (log matching, leader completeness, state-machine safety); that composition over several nodes and '
+          'schedules is assumed, not proved')
+A_COMMON = ['A-CLOCK: successive clock reads are non-decreasing', 'A-REAL: floats are treated as reals',
+            'universe: node universe of PYVC_UNIVERSE other nodes (4 quick / 5 thorough), each voter/observer/connected by symbolic '
+            'membership bits; terms, indices, log length and times are unbounded',
+            'py3-only: Python-2 branches are not verified', 'X1: logger calls dropped']
+T_SO = ['T-TRANSPORT: transport.send records (node, message) in a ghost outbox, returns a bool, may only shrink connectedNodes',
+        'T-PICKLE: loads(dumps(x)) == x; a pickled entry is longer than its command',
+        'LogCell: the journal object is used through the list operations of MemoryJournal (C08 relates FileJournal to it); '
+        'index contiguity I1 is an obligation at every add']
+TECH = 'contract-based deductive verification: VCs generated from the real Python AST by pyvc, discharged by z3 (cvc5/z3-4.8 second opinion)'
 
-PROPS['C03'] = dict(
-    modules=SO_MODS, units=['msg.request_vote', 'msg.response_vote', 'tick.leader', 'tick.election'], level='proof',
-    assumptions=[], trusted=['T-TRANSPORT'], level_text='wip', level_note='wip')
 
-PROPS['C04'] = dict(
-    modules=SO_MODS, units=['tick.leader', 'tick.not-leader', 'msg.next_node_idx', 'msg.append_entries', 'applyLogEntries'], level='proof',
-    assumptions=[], trusted=['T-TRANSPORT'], level_text='wip', level_note='wip')
+def P(pid, units, text, note, lemmas=(), modules=SO_MODS, assumptions=(), trusted=T_SO, level='proof', bounded=()):
+    PROPS[pid] = dict(modules=list(modules), units=list(units), lemmas=list(lemmas), level=level, level_text=text, level_note=note,
+                      assumptions=list(assumptions) + A_COMMON, trusted=list(trusted), technique=TECH, bounded=list(bounded),
+                      drops=['X1 logger calls', 'X2 py2 branches', 'X3 clock/random as fresh symbolic values', 'X7 regions of _onTick by statement'])
 
-PROPS['C01'] = dict(
-    modules=SO_MODS, units=['msg.append_entries'], level='proof',
-    assumptions=[], trusted=['T-TRANSPORT'], level_text='wip', level_note='wip')
 
-PROPS['C12'] = dict(
-    modules=SO_MODS, units=['applyLogEntries', 'doApplyCommand'], level='proof',
-    assumptions=[], trusted=['T-TRANSPORT'], level_text='wip', level_note='wip')
+P('C01', ['msg.append_entries', 'applyLogEntries', 'doApplyCommand', 'sendAppendEntries', 'tick.leader', 'msg.next_node_idx',
+          'loadDumpFile', 'checkCommandsToApply'],
+  'Per-function contracts, proved for all inputs on the real AST, for every mechanism the property is anchored in: follower accepts '
+  'append_entries only on a matching predecessor and removes an entry only on conflict (R6,R7), commits only the verified prefix '
+  '(R8), the leader commits only majority-matched current-term entries (R9), the apply loop executes exactly log[applied+1..] in '
+  'order with the decoded method (R11,O1.2,O1.3), the send loop emits true predecessors and contiguous batches (G_AE), snapshot '
+  'install/load sets journal and applied index to the dump position (O1.5).',
+  'The step from these local rules to "no two nodes apply different commands at one position" is ' + A_RAFT + '. A change that keeps '
+  'every local rule but breaks the protocol in a new way is outside this technique. Deterministic replicated methods assumed (A-USERCODE).',
+  assumptions=[A_RAFT, 'R_AE: entries of a message are contiguous from prevLogIdx+1 (proved at the sender as G_AE)',
+               'A-DUMP: the two entries of a dump are contiguous', 'A-USERCODE', 'A-CMD: log commands are non-empty',
+               'A-PROTO-4: nextIndex <= first journal index only for a compacted journal'])
 
-PROPS['C17'] = dict(
-    modules=SO_MODS, units=['applyLogEntries', 'doApplyCommand', 'loadDumpFile', 'setCodeVersion'], level='proof',
-    assumptions=[], trusted=['T-PICKLE'], level_text='wip', level_note='wip')
+P('C02', ['FastQueue', 'applyCommand', 'checkCommandsToApply', 'msg.apply_command', 'msg.apply_command_response', 'applyLogEntries',
+          'tick.election', 'msg.append_entries'],
+  'The FAIL_REASON table of the statement as contracts on the real functions: a submission is enqueued xor QUEUE_FULL once (O2.2); each '
+  'dequeued item gets exactly one disposition - appended by the leader with a subscription / success reply naming (index, term), '
+  'REQUEST_DENIED, forwarded once with a fresh reply slot, NOT_LEADER, MISSING_LEADER - and the journal changes only in the first '
+  '(O2.3); forwarded replies move the callback to the commit subscribers or fire the error once (O2.5); LEADER_CHANGED fires every '
+  'pending forwarded callback once (O2.6); at apply time every subscriber of the index fires exactly once, SUCCESS with this '
+  'execution\'s result iff the terms agree, else DISCARDED (O2.4).',
+  '"SUCCESS => the command occupies one position cluster-wide and is never undone" and "error => applied on no node" beyond the local '
+  'journal rest on ' + A_RAFT + '. The sync wrapper inside the `replicated` decorator (closure, threading.Event) is not under contract. '
+  'Thread interleavings are C19 (not applicable).',
+  assumptions=[A_RAFT, 'A-PROTO-3: a success reply for index i reaches the submitter before it applies i', 'A-USERCODE'])
 
-PROPS['C02'] = dict(
-    modules=SO_MODS, units=['FastQueue', 'applyCommand', 'checkCommandsToApply', 'msg.apply_command', 'msg.apply_command_response', 'applyLogEntries', 'tick.election', 'msg.append_entries'], level='proof',
-    assumptions=[], trusted=['T-PICKLE'], level_text='wip', level_note='wip')
+P('C03', ['msg.request_vote', 'msg.response_vote', 'tick.election', 'tick.leader', 'msg.append_entries'],
+  'R1-R5 proved on the real handlers and tick: term never decreases and the vote changes only from None or on a new term; a vote is '
+  'granted only for the current term, once, to a candidate with an up-to-date log; votes are counted only by a candidate of that '
+  'term; leader only with votes > (n+1)/2; on election nextIndex/matchIndex are reset and a no-op of the own term is appended; a '
+  'leader never rewrites its log. Lemma L-ELECT (two majorities of write-once votes intersect) is discharged for N=1..5.',
+  'Leader completeness (second sentence of the statement) rests on R2 (up-to-date check) + R9 + ' + A_RAFT + '. Votes are not '
+  'de-duplicated per voter in the code; with at-most-once delivery of each response (T-TRANSPORT) this is sound, and the assumption is listed.',
+  lemmas=['L-ELECT'], assumptions=[A_RAFT, 'T-TRANSPORT: each response_vote is delivered at most once'])
 
-PROPS['C10'] = dict(
-    modules=SO_MODS, units=['changeCluster', 'doChangeCluster', 'checkCommandsToApply.membership'], level='proof',
-    assumptions=[], trusted=['T-PICKLE'], level_text='wip', level_note='wip')
+P('C04', ['tick.leader', 'tick.not-leader', 'msg.next_node_idx', 'msg.append_entries', 'applyLogEntries', 'loadDumpFile'],
+  'R9 with its loop invariant (commit advances only to an entry matched by a majority of voters and of the current term), R10 '
+  '(matchIndex only grows, only from a success reply), R6-R8 on the follower (no deletion without conflict, commit within the '
+  'verified prefix, never lowered), monotone applied index, and a frame obligation: the set of functions that assign the commit or '
+  'applied index is computed from the AST and every writer is under contract.',
+  'Cross-node finality ("never differs on any node") is ' + A_RAFT + '.',
+  lemmas=['FRAME-C04'], assumptions=[A_RAFT, 'R_AE'])
 
-PROPS['C11'] = dict(
-    modules=SO_MODS, units=['sendAppendEntries'], level='proof',
-    assumptions=[], trusted=['T-PICKLE'], level_text='wip', level_note='wip')
+P('C06', ['loadDumpFile', 'msg.append_entries'],
+  'Start-up/compaction side of durability as contracts: the follower acknowledges only after the journal append (O6.1, ghost event '
+  'order on the real handler); loading a dump on start-up keeps every journal entry after the dump position (O6.3).',
+  'What the journal file holds after a kill is C08 (FileJournal contracts, crash conditions). Start-up region of __init__ and the '
+  'compaction ordering O6.4 are covered by the C08/C09 units where built; journal-without-dump (D9) is a known finding.',
+  assumptions=['T-RENAME, T-MMAP (via C08)', 'kill = process kill, not power loss'])
 
-PROPS['C09'] = dict(
-    modules=SO_MODS, units=['loadDumpFile', 'sendAppendEntries'], level='proof',
-    assumptions=[], trusted=['T-PICKLE'], level_text='wip', level_note='wip')
-PROPS['C06'] = dict(
-    modules=SO_MODS, units=['loadDumpFile', 'msg.append_entries'], level='proof',
-    assumptions=[], trusted=['T-PICKLE'], level_text='wip', level_note='wip')
+P('C10', ['changeCluster', 'doChangeCluster', 'checkCommandsToApply.membership', 'loadDumpFile', 'doApplyCommand', 'msg.response_vote'],
+  'Leader gate from the statement (accepted only after the own no-op is applied and with no unapplied membership entry, O10.1) under '
+  'the bookkeeping invariant I9, whose preservation by the leader\'s append is proved; exact effect of applying/reversing a request on '
+  'voters, nextIndex, matchIndex, lastResponse and the transport (O10.2); member set restored from a dump (O9.4).',
+  'Follower-side apply-on-append / rollback-on-truncate loops (O10.3) are covered only through the doChangeCluster contract, not as '
+  'loop contracts. Safety of single-server changes across nodes is ' + A_RAFT + ' extended to membership.',
+  assumptions=[A_RAFT, 'I9 as quantified hypothesis', 'observers never carry member addresses (O14.1)'])
+
+P('C11', ['sendAppendEntries', 'msg.append_entries', 'doApplyCommand', 'applyCommand', 'tick.leader'],
+  'Batching (non-empty contiguous batch, O11.2), the big-entry chunk loop as a loop contract (first chunk start, finish exactly on the '
+  'last chunk, each chunk the slice at its position, O11.3), follower reassembly (O11.4), decode/dispatch of the three command shapes '
+  '(O11.1), and no exception escaping the send loop, the handler or the apply path (O11.5), for all sizes.',
+  'Journal growth for big records is C08 (ResizableFile.write). The argument packing inside the `replicated` decorator closure is not '
+  'under contract (frame introspection, X4).',
+  assumptions=['T-PICKLE: len(dumps(entry)) > len(command)', 'A-PROTO-4'])
+
+P('C12', ['applyLogEntries', 'doApplyCommand'],
+  'Apply-loop contract with exceptional postcondition: no exception may escape, applied advances, subscribers fire exactly once.',
+  'Fails on the unchanged tree for a raising replicated method: recorded as known finding D6 (see known_findings.json); every other '
+  'clause of the unit is proved.',
+  assumptions=['A-USERCODE'])
+
+P('C15', [], 'filled below', 'filled below', modules=['contracts.bat_containers'], trusted=['T-BUILTIN: the builtin operations named in the contracts behave as documented'])
+
+P('C16', ['lock.acquire', 'lock.prolongate', 'lock.release', 'lock.isAcquired'],
+  'Exact functional contracts of the four _ReplLockManagerImpl methods against spec functions written from the statement, the '
+  'single-step rule S (holder changes only after expiry, only the holder can release), and lemma L-LOCK over the same spec functions: '
+  'a lagging and a current replica never both report different holders at one instant (common clock).',
+  'Lock table with 3 symbolic entries plus arbitrary probe key (keys symbolic). The client wrapper ReplLockManager.tryAcquire '
+  '(late-acquire check, threads) is not under contract. "Eventually obtainable" is proved in its safety form only.',
+  lemmas=['L-LOCK'], modules=['contracts.bat_lock'], trusted=[],
+  assumptions=['A-LOCKTIME: one client\'s timestamps are non-decreasing in log order; a command\'s timestamp is a clock reading taken before it is applied'])
+
+P('C17', ['applyLogEntries', 'doApplyCommand', 'loadDumpFile', 'setCodeVersion'],
+  'VERSION entry semantics (O17.3), stop-at-unsupported-version in the apply loop (O17.5), request validation (O17.4) and name table '
+  'rebuilt for the restored version after a dump load (O17.6), as contracts on the real functions.',
+  'Method-id enumeration and the name-table construction use reflection (dir/getattr, X4): they are checked by a bounded native '
+  'stand-in (labelled bounded) where built, not proved.',
+  assumptions=['X4: reflection abstracted'])
+
+P('C18', ['tick.election', 'msg.request_vote', 'msg.response_vote', 'tick.leader', 'hasQuorum', 'checkCommandsToApply', 'doChangeCluster'],
+  'A node without own address never becomes candidate, never answers a vote request and stays FOLLOWER (O18.1); commit, fallback and '
+  'has-quorum outcomes are independent of observers\' data (O18.2, proved by re-evaluating the rule with observers\' values havoc\'d); '
+  'submissions through a non-leader are forwarded per C02.',
+  '"Still converges to the same state" is liveness (C05-type) and not decided.',
+  assumptions=[])
+
+P('C20', ['tick.leader', 'tick.not-leader', 'hasQuorum', 'msg.next_node_idx', 'sendAppendEntries', 'doChangeCluster'],
+  'The leader block of _onTick keeps the leader role only if, at the clock value it reads, more than half of the voters (itself '
+  'included) answered within leaderFallbackTimeout, otherwise it becomes FOLLOWER with no leader (O20.1); lastResponseTime is '
+  'refreshed only on receipt of a reply / on election / on adding a member (O20.2 frame); hasQuorum is exactly the '
+  'majority-of-connected-voters formula (O20.3).',
+  'The bound is "fallback timeout + one tick period" (the tick period is the caller\'s). "Never acknowledges SUCCESS while cut off" rests on '
+  'R9/R10 plus ' + A_RAFT + '.',
+  lemmas=['FRAME-C20'], assumptions=[])
+
+PROPS['C09'] = None
+P('C09', ['loadDumpFile', 'sendAppendEntries', 'msg.append_entries'],
+  'Snapshot load restores attributes, journal head, applied index, member set and the name table for the restored version (O9.4); the '
+  'leader resets nextIndex to the entry after the snapshot point and sends snapshots only to followers behind the journal start '
+  '(O9.6); a partial snapshot chunk changes neither journal nor commit index.',
+  'Serializer (modes, tmp+rename, chunk protocol) contracts are listed per unit where built; T-PICKLE/T-GZIP/T-FORK/T-RENAME are trusted.',
+  assumptions=['A-DUMP', 'A-ATTRS'])
+
+# ---------------------------------------------------------------------------------------------------------- lemmas
+
+
+def _lemma_frame(prop, attr_sets):
+    """frame obligations: the writers of the given fields, computed from the AST of class SyncObj, are exactly the
+    functions under contract for them"""
+    from pyvc import source
+    from contracts.so_common import writers_of
+
+    def run():
+        mod = source.load('pysyncobj/syncobj.py')
+        out = []
+        for attr, allowed in attr_sets.items():
+            w = writers_of(mod, 'SyncObj', attr)
+            extra = [x for x in w if x not in allowed]
+            out.append(dict(id='%s:frame.writers-of-%s-are-under-contract' % (prop, attr.strip('_')), unit='lemma.frame', path='ast',
+                            status='discharged' if not extra else 'failed', solver='ast-frame-analysis', secs=0.0,
+                            model={'writers': w, 'uncontracted': extra}, info='writers=%s' % w, line=None))
+        return out
+    return run
+
+
+LEMMAS['FRAME-C04'] = _lemma_frame('C04', {
+    '__raftCommitIndex': ['__init__', '_onTick', '__onMessageReceived'],
+    '__raftLastApplied': ['__init__', '__applyLogEntries', '__loadDumpFile'],
+    '__raftMatchIndex': ['__init__', '__onMessageReceived', '__onReadonlyNodeConnected', '__onReadonlyNodeDisconnected', '__onBecomeLeader',
+                         '__doChangeCluster', '__updateClusterConfiguration'],
+})
+LEMMAS['FRAME-C20'] = _lemma_frame('C20', {
+    '__lastResponseTime': ['__init__', '__onMessageReceived', '__onBecomeLeader', '__doChangeCluster'],
+})
+
+
+def _lemma_elect():
+    from contracts.lemmas import lemma_elect
+    return lemma_elect()
+
+
+LEMMAS['L-ELECT'] = _lemma_elect
+
+from contracts import bat_lock as _bl   # noqa
+LEMMAS['L-LOCK'] = _bl.lemma_lock
+
+from contracts import bat_containers as _bc   # noqa
+
+
+def _lemma_public_methods():
+    missing = _bc.public_methods_covered()
+    return [dict(id='C15:every-public-method-has-a-contract', unit='lemma.coverage', path='ast-census',
+                 status='discharged' if not missing else 'failed', solver='ast', secs=0.0, model={'missing': missing}, info=str(missing), line=None)]
+
+
+LEMMAS['C15-coverage'] = _lemma_public_methods
+P('C15', _bc.ALL_UNITS,
+  'Every public method of ReplCounter/ReplList/ReplDict/ReplSet/ReplQueue/ReplPriorityQueue (57, counted from the AST on every run) is '
+  'executed symbolically against a recording stand-in of the builtin container of unbounded size; the contract, written from the Python '
+  'documentation of list/dict/set/deque/heapq, says which builtin operation with which arguments the call must amount to (defaults '
+  'and documented errors included) and what it returns; bounded queues refuse exactly when maxsize > 0 and len >= maxsize; replicated '
+  'methods must be functions of (state, arguments).',
+  'T-BUILTIN: the builtins themselves behave as documented. "After replication all replicas are equal" additionally needs C01. '
+  'ReplSet.pop is a known finding (D15). Consumer (de)serialisation is covered where the unit consumer.serialize is built.',
+  lemmas=['C15-coverage'], modules=['contracts.bat_containers'], trusted=['T-BUILTIN'])
+
+NOT_BUILT.update({
+    'C07': 'term and vote are not persisted by the code at all (syncobj.py __init__ assigns 0/None, .meta holds only the commit index): the '
+           'single obligation fails by construction; recorded as known finding D10 in DESIGN.md/known_findings.json rather than claimed as a check',
+})
